@@ -93,6 +93,19 @@ class C10(HistoryProperty):
         # during validate() and so hides a validate() that is weaker than keys()/evaluate()
         inner = [n["id"] for n in spec["nodes"] if n["k"] in ("map", "coalesce", "switch", "case", "bind", "template", "apply", "withopts", "list", "opt", "dsclass")]
         spec["roots"] = list(dict.fromkeys(spec["roots"] + rng.sample(inner, min(len(inner), rng.randint(0, 3)))))
+        if rng.random() < 0.3:
+            # an option whose DEFAULT is a dataset and that declares a domain / a type, read with its key absent most of the
+            # time: validating it must validate the default, not evaluate it
+            k = len(spec["nodes"])
+            spec["nodes"] += [
+                {"k": "dataset", "name": "GDEF", "args": {}, "id": f"v{k}"},
+                {"k": "opt", "key": "Q1", "default": {"t": "expr", "n": f"v{k}"}, "domain": {"t": "pred", "v": [0, 1, "a"]}, "id": f"v{k + 1}"},
+                {"k": "opt", "key": "Q2", "default": {"t": "expr", "n": f"v{k}"}, "type": rng.choice(["int", "str"]), "id": f"v{k + 2}"},
+                {"k": "dataset", "name": "GUSE", "args": {"a": rng.choice([f"v{k + 1}", f"v{k + 2}"])}, "id": f"v{k + 3}"},
+                {"k": "val", "v": "fallback", "id": f"v{k + 4}"},
+                {"k": "coalesce", "members": [f"v{k + 3}", f"v{k + 4}"], "id": f"v{k + 5}"},
+            ]
+            spec["roots"] = spec["roots"] + [f"v{k + 3}", f"v{k + 5}", rng.choice([f"v{k + 1}", f"v{k + 2}"])]
         spec = gen.prune(spec)
         ops = gen_history(rng, cfg, spec, n_ops=rng.randint(3, 12))
         # sub-dictionaries of the generated ones: options are added key by key
